@@ -127,6 +127,8 @@ func Step(sh *Shared, local []tensor.Tensor, in Instr) (tensor.Tensor, error) {
 			return activations.NewRelu().Forward(a)
 		case "sigmoid":
 			return activations.NewSigmoid().Forward(a)
+		case "elmax":
+			return a.ElMax(b)
 		case "transpose":
 			return a.Transpose()
 		case "concat":
